@@ -16,8 +16,9 @@ from .c13 import compare_grids
 
 LEVEL = "exploration"
 RULE = (
-    "(a) members of the shared gridlab corpus generated twice in fresh processes: every numeric variable "
-    "bit-identical; (b) Hypothesis: TokamakEquilibrium(make_regions=False) over all subsets of "
+    "(a) members of the shared gridlab corpus generated twice in fresh processes (every other repeat hands "
+    "the same option values over as numpy.float64 objects): every numeric variable bit-identical, the embedded "
+    "option YAML loadable with yaml.safe_load (as hypnotoad-geqdsk loads it) and equal; (b) Hypothesis: TokamakEquilibrium(make_regions=False) over all subsets of "
     "{reverse_current, psi_divide_twopi, reverse_Bt, extrapolate_profiles} and generated arrays - the "
     "caller's arrays, wall list and settings dict must be byte-identical afterwards, and building twice "
     "from the same arrays must give the same equilibrium; (c) RuleBasedStateMachine: generated histories "
@@ -246,6 +247,8 @@ def repeat_pairs(run):
     for c in ok:
         d = copy.deepcopy(c.desc)
         d["repeat"] = 1  # ignored by the worker: forces an independent run in a fresh process
+        if len(reps) % 2 == 1:
+            d["numpy_options"] = True  # same values handed over as numpy.float64 objects
         reps.append(d)
     again = gridlab.run_cases(reps, timeout=600)
     for c1, c2 in zip(ok, again):
@@ -258,6 +261,25 @@ def repeat_pairs(run):
         bad = compare_grids(c1.nc, c2.nc)
         if bad:
             run.failure("C14/repeat-not-bit-identical", {"variables": bad[:20]}, {"desc": c1.desc}, {})
+        # the embedded option set must be loadable the way the command-line entry point loads it
+        import yaml
+
+        loaded = []
+        for c in (c1, c2):
+            try:
+                o = yaml.safe_load(c.nc["hypnotoad_inputs_yaml"])
+                if not isinstance(o, dict):
+                    raise ValueError("not a mapping")
+                loaded.append(o)
+            except Exception as e:  # noqa: BLE001
+                run.failure(
+                    "C14/embedded-yaml-not-loadable" + ("/numpy-scalar-options" if c.desc.get("numpy_options") else ""),
+                    {"error": "%s: %s" % (type(e).__name__, str(e)[:300])}, {"desc": c.desc}, {},
+                )
+        if len(loaded) == 2 and loaded[0] != loaded[1]:
+            diff = sorted(k for k in set(loaded[0]) | set(loaded[1]) if loaded[0].get(k) != loaded[1].get(k))
+            run.failure("C14/embedded-yaml-differs-between-repeats", {"keys": diff[:20]}, {"desc": c1.desc}, {})
+        run.bump("repeat/numpy-scalar-options=%s" % bool(c2.desc.get("numpy_options")))
         a1, a2 = c1.nc["__attrs__"], c2.nc["__attrs__"]
         if a1.get("grid_id") == a2.get("grid_id"):
             run.failure("C14/grid_id-not-unique", {"grid_id": a1.get("grid_id")}, {"desc": c1.desc}, {})
